@@ -359,6 +359,8 @@ def gen_mutations(ctx, n):
         s = sheet(body, r.choice(["xml", "html", "text"]), r.choice(["", " indent='yes'", " encoding='UTF-16'", " encoding='us-ascii'"]))
         d = DOC
         lvl = r.randrange(5)
+        if "<xsl:call-template" in body and lvl in (0, 2):
+            lvl = 4      # K19 class: a mutated self-recursive template may lose its bound; it is only run unmodified
         entry = r.choice("TTTTCA")
         if lvl == 0:
             out.append(Case(entry, mutate_bytes(r, s), d, cls="mutate:bytes:sheet"))
@@ -400,7 +402,7 @@ def gen_mutations(ctx, n):
 # ---------------------------------------------------------------------------------------------
 # running
 
-ENV = {"ASAN_OPTIONS": "detect_leaks=1:allocator_may_return_null=1:detect_stack_use_after_return=0:max_malloc_fill_size=0",
+ENV = {"ASAN_OPTIONS": "detect_leaks=1:allocator_may_return_null=1:detect_stack_use_after_return=0:max_malloc_fill_size=0:hard_rss_limit_mb=3000",
        "UBSAN_OPTIONS": "print_stacktrace=1:halt_on_error=1", "LSAN_OPTIONS": "exitcode=23"}
 REPORT_RX = re.compile(r"(ERROR: (?:AddressSanitizer|LeakSanitizer)[^\n]*|[^\n]*runtime error:[^\n]*|terminate called[^\n]*|what\(\)[^\n]*)")
 
@@ -463,7 +465,7 @@ class Runner:
                 break
             culprit = pending[0]
             idx = todo.index(culprit)
-            kind = "hang" if status == "timeout" else "crash"
+            kind = "hang" if status == "timeout" else ("memory-exhaustion" if "hard rss limit" in err else "crash")
             r1, s1, _, e1 = run_proc(self.exe, [culprit.line()], 90 + 4 * self.tmo)
             if s1 != "ok" and culprit.id not in r1:
                 self.events.append((kind if s1 != "timeout" else "hang", culprit, (s1 + " " + report_of(e1 or err)).strip(), [culprit.line()]))
@@ -489,6 +491,61 @@ class Runner:
             if s != "ok":
                 self.events.append(("exit-single", c, s + " " + report_of(e), [c.line()]))
                 return
+
+
+TAG_RX = re.compile(rb"<(/?)([A-Za-z_][\w:.\-]*)((?:[^>'\"]|'[^']*'|\"[^\"]*\")*?)(/?)>")
+
+
+def misplaced_with_param(sheet_bytes):
+    """known finding K-new-5: an xsl:with-param whose parent is not xsl:call-template / xsl:apply-templates"""
+    stack = []
+    for m in TAG_RX.finditer(sheet_bytes):
+        close, name, _, selfclose = m.group(1), m.group(2), m.group(3), m.group(4)
+        if close:
+            if stack:
+                stack.pop()
+            continue
+        if name == b"xsl:with-param" and (not stack or stack[-1] not in (b"xsl:call-template", b"xsl:apply-templates")):
+            return True
+        if not selfclose:
+            stack.append(name)
+    return False
+
+
+def self_recursive_template(sheet_bytes):
+    """known finding K19: a named template that calls itself (depth bounded only by its data)"""
+    for m in re.finditer(rb"<xsl:template\b[^>]*\bname=(['\"])([^'\"]*)\1[^>]*>(.*?)</xsl:template>", sheet_bytes, re.S):
+        if re.search(rb"<xsl:call-template\b[^>]*\bname=(['\"])" + re.escape(m.group(2)) + rb"\1", m.group(3)):
+            return True
+    return False
+
+
+def known_class(c, kind):
+    """the known-finding class of a failing case, decided from the input alone (same guards as the generators use)"""
+    if c is None:
+        return None
+    if c.known:
+        return c.known
+    S = b_(c.S)
+    if c.entry in "TCA":
+        if misplaced_with_param(S):
+            return "K-new-5"
+        if re.search(rb"\bmatch=(['\"])[^'\"]*/\s+/", S):
+            return "K-new-6"
+        if any(a not in (b"disable-output-escaping", b"xml:space")
+               for t in re.findall(rb"<xsl:text\b([^>]*)>", S) for a in re.findall(rb"([A-Za-z_][\w:.\-]*)\s*=", re.sub(rb"'[^']*'|\"[^\"]*\"", b"''", t))):
+            return "K-new-4"
+        if kind in ("hang", "memory-exhaustion", "escaped-exception") and self_recursive_template(S):
+            return "K19"
+        for a in re.findall(rb"str:padding\s*\(([^,)]*)", S):
+            if not re.fullmatch(rb"\s*\d{1,4}\s*", a):
+                return "K-new-2"      # length argument other than a small non-negative integer literal
+        for a in re.findall(rb"math:constant\s*\(\s*(?:'[^']*'|\"[^\"]*\"|&quot;.*?&quot;)\s*,([^)]*)", S):
+            if not (re.fullmatch(rb"\s*\d{1,2}\s*", a) and int(a) < 17):
+                return "K-new-1"      # precision that is not a literal below the smallest table size
+    if c.P and any("$" in v for v in c.P.values() if isinstance(v, str)):
+        return "K-new-3"
+    return None
 
 
 def judge(c, f):
@@ -527,6 +584,8 @@ def corpus_cases():
         "K-new-2": Case("T", vo("str:padding(-1)"), cls="corpus:K-new-2"),
         "K-new-3": Case("T", sheet("<xsl:param name='p' select='1'/><xsl:template match='/'><xsl:value-of select='$p'/></xsl:template>"), P={"p": "$q"}, cls="corpus:K-new-3"),
         "K-new-4": Case("T", tmpl("<xsl:text bogus='1'></xsl:text>", "xml"), cls="corpus:K-new-4"),
+        "K-new-5": Case("T", tmpl("<xsl:if test='1'><xsl:with-param name='w' select='1'/></xsl:if>", "xml"), cls="corpus:K-new-5"),
+        "K-new-6": Case("T", sheet("<xsl:template match='/ /'>x</xsl:template>"), cls="corpus:K-new-6"),
     }
 
 
@@ -591,7 +650,7 @@ def evaluate(ctx, exe, cases, batch_size=40, per_case_timeout=4):
             # a batch ended early but neither the case alone nor the batch prefix reproduces it (machine load): recorded, not judged
             ctx.notes.setdefault("not_reproduced", []).append("%s %s %s" % (kind, c.cls if c else "-", detail[:120]))
             continue
-        failures.append((kind, c, detail, replay, c.known if c is not None else None))
+        failures.append((kind, c, detail, replay, known_class(c, kind)))
     status_hist = {}
     for c in cases:
         ctx.count(c.cls.split(":")[0] + ":" + c.cls.split(":")[1] if ":" in c.cls else c.cls)
@@ -604,7 +663,7 @@ def evaluate(ctx, exe, cases, batch_size=40, per_case_timeout=4):
         status_hist[f[0]] = status_hist.get(f[0], 0) + 1
         j = judge(c, f)
         if j:
-            failures.append((j[0], c, j[1], [c.line()], c.known))
+            failures.append((j[0], c, j[1], [c.line()], known_class(c, j[0])))
     return failures, status_hist
 
 
@@ -630,7 +689,7 @@ def replay_known(ctx, plain, asan):
     f = r.get("K9")
     j = judge(cs["K9"], f) if f else ("crash", s)
     obs["K9"] = j[1] if j else None
-    for k in ("K-new-1", "K-new-2", "K-new-3", "K-new-4"):
+    for k in ("K-new-1", "K-new-2", "K-new-3", "K-new-4", "K-new-5", "K-new-6"):
         r, s, _, e = run_proc(asan, [cs[k].line()], 60)
         obs[k] = None if (s == "ok" and k in r) else "%s %s" % (s, report_of(e))
     return obs
